@@ -17,9 +17,10 @@
                   offset strictly between -86400 and 86400.
     The calendar-core facts these proofs need about Model/Date.v ([date_facts]: successor /
     predecessor = day number +- 1, order embedding, accessors) are discharged in Proofs/C04Date.v
-    from the shared library Proofs/Date.v (C01/C08), so the theorems below are unconditional, with
-    one exception: the ISO-week accessor, whose calendar lemma does not exist yet (its theorem is
-    named _modulo_isoweek and carries that lemma as an explicit premise). *)
+    from the shared library Proofs/Date.v (C01/C08), and the ISO-week lemma for nominal dates from
+    Proofs/DateIso.v (C04_iso_week_nominal), so the theorems below are unconditional (the older form
+    of the ISO-week theorem, named _modulo_isoweek, which carries that lemma as an explicit premise,
+    is kept under its name). *)
 From Coq Require Import ZArith List Bool.
 From V Require Import Base.Int Base.IO Spec.Gregorian.
 From V Require Model.Date Model.Time.
@@ -152,7 +153,16 @@ Theorem C04_accessors_wallclock : forall a, dtz_ok a ->
   dz_nanosecond a = Val (frac (dz_utc a)).
 Proof. exact accessors_wallclock_u. Qed.
 Print Assumptions C04_accessors_wallclock.
-(* ISO week: conditional on the (not yet available) calendar lemma for nominal dates; headroom dates computed *)
+(* ISO week: the accessor returns the ISO year and week of the wall-clock day, also in the one-day headroom
+   (nominal dates: Proofs/DateIso.v d_iso_week_spec; the two headroom dates: computed) *)
+Theorem C04_iso_week_nominal : forall d, nominal d -> iso_ok d.
+Proof. exact iso_ok_nominal. Qed.
+Print Assumptions C04_iso_week_nominal.
+Theorem C04_iso_week_wallclock : forall a, dtz_ok a ->
+  exists w, dz_iso_week a = Val w /\ (Date.iw_year w, Date.iw_week w) = iso_of_dn (wall a / 86400).
+Proof. exact iso_week_wallclock_full. Qed.
+Print Assumptions C04_iso_week_wallclock.
+(* the older form, with the lemma for nominal dates as a premise *)
 Theorem C04_iso_week_wallclock_modulo_isoweek : forall a, (forall d, nominal d -> iso_ok d) -> dtz_ok a ->
   exists w, dz_iso_week a = Val w /\ (Date.iw_year w, Date.iw_week w) = iso_of_dn (wall a / 86400).
 Proof. exact iso_week_wallclock_u. Qed.
